@@ -100,7 +100,7 @@ func VerifC09_DumpLoadGenCode() {
 	got, err := Load(data, nil)
 	// RAW payloads are reported as such: the caller takes the bytes
 	rt.Assert(errors.Is(err, ErrIsRaw), "raw/reported-as-raw")
-	_ = got
+	rt.Assert(got == RAW, "raw/format-reported")
 	rt.Assert(rt.EqBytes(data[1:], raw), "raw/bytes")
 	rt.Reach("raw-end")
 }
